@@ -141,6 +141,14 @@ class GraphicalModel:
         kopy = self.__class__()
         # Copy the source net
         kopy.source_net = nx.DiGraph(self.source_net)
+        # nx.DiGraph(G) shares the node state dicts and the graph level dicts with G.
+        # Copy them so that changing the copy does not alter the original.
+        for _, data in kopy.source_net.nodes(data=True):
+            if isinstance(data.get('attr_dict'), dict):
+                data['attr_dict'] = data['attr_dict'].copy()
+        for key, value in kopy.source_net.graph.items():
+            if isinstance(value, dict):
+                kopy.source_net.graph[key] = value.copy()
         return kopy
 
     def __copy__(self, *args, **kwargs):
